@@ -153,7 +153,15 @@ def run_job(job, cfg, scratch, keep=False, variant=None):
         M = load_module(ir)
         if job.irfacts:
             props = []
-            for k_, (frx, text) in enumerate(job.irfacts):
+            for k_, fact in enumerate(job.irfacts):
+                if fact[0] == 'closure-free-of':          # ('closure-free-of', root regex, forbidden-callee regex): nothing in the call closure of root matches
+                    _, frx, bad = fact[:3]; cut_at = fact[3] if len(fact) > 3 else {}   # cut_at: callees where the closure stops (named, they count as reached)
+                    tr_ = ll2c.translate(M, {'R': frx}, cut_at)
+                    fl = tr_['info']['functions'] + list(tr_['info'].get('externals', [])) + list(tr_['info'].get('stubs', []))
+                    offenders = [f for f in fl if re.search(bad, f)]
+                    props.append({'id': 'irfact.%d' % k_, 'desc': 'no function matching /%s/ is reachable from %s (%d functions in its call closure)%s' % (bad, frx[:90], len(fl), (': ' + offenders[0][:80]) if offenders else ''), 'status': 'FAILURE' if offenders or len(fl) < 2 else 'SUCCESS'})
+                    continue
+                frx, text = fact
                 hits = [n for n in M.funcs if re.search(frx, M.dem[n])]
                 if len(hits) != 1: raise Undecided('irfact: %r matches %d definitions' % (frx, len(hits)))
                 body = M.funcs[hits[0]].body_text; ok = False
@@ -220,7 +228,7 @@ def run_job(job, cfg, scratch, keep=False, variant=None):
         rc, so, se, dt = sh(cb, timeout=job.timeout, mem_gb=job.mem_gb)
         r.solver_s = dt; r.log = so[-200000:] + '\n' + se[-5000:]
         if keep: open(os.path.join(wd, 'cbmc.log'), 'w').write(so + '\n' + se)
-        if rc == -9: raise Undecided('cbmc timeout after %ds' % job.timeout)
+        if rc == -9: raise Undecided(('cbmc timeout after %ds' % job.timeout) if dt >= job.timeout - 5 else 'cbmc killed by signal 9 after %ds (out of memory?)' % dt)
         if 'no body for' in so or 'no body for' in se:
             nb = sorted(set(re.findall(r'no body for (?:callee|function) (\S+)', so + se)))
             raise Undecided('un-modelled external(s) reachable: %s' % ', '.join(nb)[:600])
